@@ -104,8 +104,8 @@ impl Property for C07 {
     }
     fn budget(&self, tier: Tier) -> (u32, u32) {
         match tier {
-            Tier::Quick => (1500, 8),
-            Tier::Thorough => (25000, 16),
+            Tier::Quick => (3000, 8),
+            Tier::Thorough => (100000, 16),
         }
     }
     fn required_counters(&self) -> Vec<&'static str> {
